@@ -145,7 +145,8 @@ def handleEval (req : Sexp) : Sexp :=
         | none => mkList "r" [mkList "stuck" [.str "no such method"]]
       | [] => mkList "r" [mkList "stuck" [.str "bad call"]])
     -- is the whole program inside the fragment of the composite theorem (Gv.Props.C02.C02_composite)?
-    let frag := if wantSpec then [mkList "fragment" [.atom (toString (PlanCheck.checkProg prog))]] else []
+    let wantFrag := wantSpec || (fieldArgs req "spec").any (fun x => asString x == "fragment")
+    let frag := if wantFrag then [mkList "fragment" [.atom (toString (PlanCheck.checkProg prog))]] else []
     mkList "ok" (outs ++ frag)
 
 end Gv.Driver
